@@ -91,6 +91,26 @@ func canonValues(g *Gen, perType int) []*Val {
 	for _, k := range keyedTypes() {
 		vs = append(vs, g.msgWithKey(k.Ty, k.E, true))
 	}
+	// the zero value of every type without a discriminator (all-zero numbers, empty text and lists) is canonical too,
+	// and so is a message whose nested value-structs are all zero
+	for _, t := range schema.Types {
+		hasUnion := false
+		for _, op := range t.fieldOps() {
+			if op.K == "union" || (op.K == "nested" && op.G != "val") {
+				hasUnion = true
+			}
+		}
+		if !hasUnion {
+			vs = append(vs, zeroValOf(t.ID))
+			v := g.msg(t.ID, true, 0)
+			for i, op := range t.fieldOps() {
+				if op.K == "nested" && op.G == "val" {
+					v.Fs[i] = zeroValOf(op.Ty)
+				}
+			}
+			vs = append(vs, v)
+		}
+	}
 	return vs
 }
 
